@@ -45,6 +45,16 @@ CLAIMED = {
    note="Assumed: rely clauses (other goroutines do not re-point a stream at another connection/flow and keep maxFrameSize within (0,2^31)); Connection.State is a pure read. Not covered: wire compatibility with golang.org/x/net/http2 and HPACK agreement (a differential statement against a reference implementation - outside this family), liveness (the body is eventually delivered), the write loops' slicing.",
    technique="contract-based deductive verification (WP over go/ssa, SMT) with rely clauses at blocking points",
    design="5/C18"),
+ "C04": dict(
+   text="Proof level on the selection kernels: findHighestPriorityIndex is verified against the documented precedence for every table content and request (exact host+port; exact host with wildcard port; first - hence, by the sortedness invariant, longest - matching wildcard suffix under the port, then under '*'; else default), with unbounded loop invariants and an empty frame; GetRouteFromEntries returns the match of the first route in configuration order whose Match is non-nil and nil iff none; the common header matcher is the conjunction of its configured matchers; an RPC rule matches iff its header matcher holds, and the legacy single-header shortcut is only installed for single-matcher rules.",
+   note="Assumed: Match of a route and Matches of a header matcher are pure functions of immutable configuration and the request (spec functions); regexp.MatchString as an uninterpreted predicate; the sortedness invariant of the wildcard tables (established by the constructor via sort.Sort, not yet under contract); case-insensitive host comparison (strings.ToLower) is outside the kernel. Not covered: path/prefix/regex rule bodies, variable and DSL rules, concurrent AddRoute.",
+   technique="contract-based deductive verification (WP over go/ssa, SMT); quantified first-match postconditions checked per return statement",
+   design="5/C04"),
+ "C01": dict(
+   text="Proof level for the bolt and boltv2 encoders: an unmodified decoded frame is sent as the very buffer that was received with only the four request-id bytes rewritten (result is request.Data; the id bytes equal the big-endian id); a modified frame is never sent through the fast path (result is a fresh buffer); the slow path's output has length header+class+headers+content and its three length fields equal the true lengths of what follows, or - when a length does not fit its field - the frame is refused with an error. All lengths symbolic (the 65535/65536 boundary included).",
+   note="Assumed: api.IoBuffer write contracts (append semantics), header.EncodeHeader/GetHeaderEncodeLength (ghost encoded size). Not covered yet: byte-level round trip decode(encode(x)) == x, rawData freshness of the decoders, dubbo/dubbothrift/tars encoders, HTTP/1 URI rebuild, HTTP/2, TCP relay.",
+   technique="contract-based deductive verification (WP over go/ssa, SMT) with byte-level memory model",
+   design="5/C01"),
 }
 NA = {
  "C11": "quantifies over the arrival time of a signal relative to in-flight requests across two processes (fd passing, drain timers): crash points and schedules of the whole runtime; no function whose pre/postcondition states it (DESIGN.md section 6)",
